@@ -67,6 +67,7 @@ properties! {
     "C16" => c16,
     "C17" => c17,
     "C18" => c18,
+    "C20" => c20,
 }
 
 fn usage() -> ! {
